@@ -25,7 +25,8 @@ def generate(rng, tier):
             kind = "truncated"
         allow = rng.choice([0, 0, 0, 2, 3, 7])
         eof = 1 if rng.random() < 0.93 else 0
-        lines = ["R %s %s - %s N" % (sp.s(), E.cfg_str(allow=allow, eof=eof), data.hex() or "-")]
+        mx = safe_max(rng, kind)
+        lines = ["R %s %s - %s N" % (sp.s(), E.cfg_str(allow=allow, maxs=mx, eof=eof), data.hex() or "-")]
         sets = []
         ms = sp.masters()
         if thorough and len(ms) <= 5 and k < 150:
@@ -37,7 +38,7 @@ def generate(rng, tier):
                 if b:
                     sets.append(b)
         for b in sets:
-            lines.append("R %s %s - %s N" % (sp.s(), E.cfg_str(allow=allow, buffered=b, eof=eof), data.hex() or "-"))
+            lines.append("R %s %s - %s N" % (sp.s(), E.cfg_str(allow=allow, maxs=mx, buffered=b, eof=eof), data.hex() or "-"))
         if len(lines) > 1:
             cases.append(Case(lines, kind, {"eof": eof}))
     return cases
